@@ -3,6 +3,8 @@ import Ledger.Proofs.MachineSend
 /-! The asset of the funding a source yields, and small helpers for the property files. -/
 namespace Ledger.Machine
 
+variable {cfg : Cfg}
+
 mutual
   /-- Every `allowing overdraft up to X` clause of the source is in asset `asset`. -/
   def OdAsset (env : Env) (asset : String) : Source → Prop
@@ -24,9 +26,10 @@ theorem takeMaxStep_asset {env : Env} {fb : Option Expr} {f : Funding} {mon : St
   rw [t.assetR, t.assetF]
 
 mutual
-  theorem evalSource_asset (env : Env) (asset : String) :
+  theorem evalSource_asset (cfg : Cfg) (env : Env) (asset : String) :
       (s : Source) → (b : Balances) → (f : Funding) → (b' : Balances) →
-      evalSource env asset s b = .ok (f, b') → OdAsset env asset s → f.asset = asset
+      evalSource cfg env asset s b = .ok (f, b') →
+      (cfg.overdraftAssetCheck = true ∨ OdAsset env asset s) → f.asset = asset
     | .account e od, b, f, b', h, ho => by
       simp only [evalSource] at h
       split at h
@@ -43,12 +46,20 @@ mutual
           simp only at h
           split at h
           · cases h
-          · rename_i oa ov hm
+          · rename_i odv hm
             split at h
             · cases h
-            · cases h
-              simp only [OdAsset] at ho
-              exact ho oa ov hm
+            · rename_i oa ov hchk
+              obtain ⟨c1, _, c3⟩ := checkOverdraft_spec hchk
+              simp only at c1
+              split at h
+              · cases h
+              · cases h
+                rw [c1]
+                rcases ho with ho | ho
+                · exact c3 ho
+                · simp only [OdAsset] at ho
+                  exact ho odv.1 odv.2 (by rw [hm])
         | unbounded => simp only at h; cases h; rfl
     | .maxed m s, b, f, b', h, ho => by
       simp only [evalSource] at h
@@ -57,9 +68,8 @@ mutual
       · rename_i f0 b1 hs
         split at h
         · cases h
-        · simp only [OdAsset] at ho
-          rw [takeMaxStep_asset h]
-          exact evalSource_asset env asset s b f0 b1 hs ho
+        · rw [takeMaxStep_asset h]
+          exact evalSource_asset cfg env asset s b f0 b1 hs (ho.imp id (by simp only [OdAsset]; exact id))
     | .inorder ss, b, f, b', h, ho => by
       simp only [evalSource] at h
       split at h
@@ -68,17 +78,18 @@ mutual
         split at h
         · cases h
         · rename_i f1 hasm
-          simp only [OdAsset] at ho
-          have hall := evalSources_asset env asset ss b fs b1 hs ho
+          have hall := evalSources_asset cfg env asset ss b fs b1 hs
+            (ho.imp id (by simp only [OdAsset]; exact id))
           obtain ⟨_, _, a3, _⟩ := assemble_ok hasm
           cases h
           cases fs with
           | nil => simp [assemble] at hasm
           | cons g gs =>
             rw [← a3 g (by simp)]; exact hall g (by simp)
-  theorem evalSources_asset (env : Env) (asset : String) :
+  theorem evalSources_asset (cfg : Cfg) (env : Env) (asset : String) :
       (ss : SourceList) → (b : Balances) → (fs : List Funding) → (b' : Balances) →
-      evalSources env asset ss b = .ok (fs, b') → OdsAsset env asset ss → ∀ f ∈ fs, f.asset = asset
+      evalSources cfg env asset ss b = .ok (fs, b') →
+      (cfg.overdraftAssetCheck = true ∨ OdsAsset env asset ss) → ∀ f ∈ fs, f.asset = asset
     | .nil, b, fs, b', h, _ => by
       simp only [evalSources] at h; cases h
       intro f hf; cases hf
@@ -90,9 +101,10 @@ mutual
         split at h
         · cases h
         · rename_i fs' b2 hss
-          simp only [OdsAsset] at ho
-          have i1 := evalSource_asset env asset s b f b1 hs ho.1
-          have i2 := evalSources_asset env asset ss b1 fs' b2 hss ho.2
+          have i1 := evalSource_asset cfg env asset s b f b1 hs
+            (ho.imp id (by simp only [OdsAsset]; exact fun x => x.1))
+          have i2 := evalSources_asset cfg env asset ss b1 fs' b2 hss
+            (ho.imp id (by simp only [OdsAsset]; exact fun x => x.2))
           cases h
           intro g hg
           rcases List.mem_cons.mp hg with rfl | hg
@@ -107,20 +119,20 @@ def postingsOf (r : Except Err Result) : Option (List Posting) :=
   | .error _ => none
 
 /-- The tracked balances `ResolveBalances` sets up, if the run gets that far. -/
-def trackedInit (s : Script) (inp : Input) (a c : String) : Option Int :=
-  match prepare s inp with
+def trackedInit (cfg : Cfg) (s : Script) (inp : Input) (a c : String) : Option Int :=
+  match prepare cfg s inp with
   | .ok (_, bal, _) => bal.get a c
   | .error _ => none
 
 /-- The environment of resolved variables, if the run gets that far. -/
-def resolvedEnv (s : Script) (inp : Input) : Option Env :=
-  match prepare s inp with
+def resolvedEnv (cfg : Cfg) (s : Script) (inp : Input) : Option Env :=
+  match prepare cfg s inp with
   | .ok (env, _, _) => some env
   | .error _ => none
 
-theorem sem_ok_iff {s : Script} {inp : Input} {r : Result} (h : sem s inp = .ok r) :
-    ∃ ds env bal pairs st, typecheck s = .ok ds ∧ prepare s inp = .ok (env, bal, pairs) ∧
-      runStmts env s.stmts (initState bal) = .ok st ∧
+theorem sem_ok_iff {s : Script} {inp : Input} {r : Result} (h : sem cfg s inp = .ok r) :
+    ∃ ds env bal pairs st, typecheck s = .ok ds ∧ prepare cfg s inp = .ok (env, bal, pairs) ∧
+      runStmts cfg env s.stmts (initState bal) = .ok st ∧
       r = { postings := st.postings, txMeta := st.txMeta, accMeta := st.accMeta, final := st } := by
   unfold sem at h
   split at h
